@@ -275,6 +275,74 @@ theorem c13_owner_gate_request_is_the_gate (k : RegKind) (own : Option AddrTok) 
       · subst hb; simp [RegState.ownedBy, find?, hd]
       · simp [RegState.ownedBy, find?, hd, hb]
 
+/-- **Records and storage purchases go through that gate, whatever is stored**: for ANY registry state, a record or a storage
+purchase message takes effect only when the registration exists and its stored owner string decodes to the address the
+message names as owner (which is the address that signed, `c13_effect_requires_entitled_signer`). -/
+theorem c13_record_and_purchase_pass_the_owner_gate (r : RegState) (now wall id key n : Nat) (rc : Rec) (o : AddrTok) :
+    (∀ x, r.record now wall id key rc o = .ok x → ∃ a m, o.decode = some a ∧ find? r.regs id = some m ∧ m.owner.decode = some a) ∧
+    (∀ x, r.purchase id n o = .ok x → ∃ a m, o.decode = some a ∧ find? r.regs id = some m ∧ m.owner.decode = some a) := by
+  constructor
+  · intro x h
+    simp only [RegState.record, bind_eq_ok, decodeM_eq_ok] at h
+    obtain ⟨a, ha, h⟩ := h
+    cases hk : r.kind <;> simp only [hk, bind_eq_ok, require_eq_ok] at h
+    · obtain ⟨_, _, _, _, m, hm, _⟩ := h
+      obtain ⟨h1, h2⟩ := ownedBy_ok r id a m hm
+      exact ⟨a, m, ha, h1, h2⟩
+    · obtain ⟨_, _, m, hm, _⟩ := h
+      obtain ⟨h1, h2⟩ := ownedBy_ok r id a m hm
+      exact ⟨a, m, ha, h1, h2⟩
+  · intro x h
+    simp only [RegState.purchase, bind_eq_ok, require_eq_ok, decodeM_eq_ok] at h
+    obtain ⟨a, ha, _, _, m, hm, _⟩ := h
+    obtain ⟨h1, h2⟩ := ownedBy_ok r id a m hm
+    exact ⟨a, m, ha, h1, h2⟩
+
+/-- the function the pure engine runs against the two MESSAGE SERVERS (`ownermsg` requests) answers "took effect" only for
+the account the stored owner decodes to -/
+theorem c13_owner_msg_request_respects_the_gate (k : RegKind) (buy : Bool) (own : Option AddrTok) (a : Addr)
+    (h : Pure.ownerMsg k buy own a = true) : ∃ o, own = some o ∧ o.decode = some a := by
+  unfold Pure.ownerMsg at h
+  cases own with
+  | none =>
+    cases buy
+    · simp only [Bool.false_eq_true, if_false] at h
+      split at h
+      · rename_i x hx
+        obtain ⟨_, m, _, hm, _⟩ := (c13_record_and_purchase_pass_the_owner_gate _ _ _ _ _ 0 _ _).1 x hx
+        simp [find?] at hm
+      · cases h
+    · simp only [if_true] at h
+      split at h
+      · rename_i x hx
+        obtain ⟨_, m, _, hm, _⟩ := (c13_record_and_purchase_pass_the_owner_gate _ 0 0 _ 0 _ { key := 0, h0 := "", subTime := 0 } _).2 x hx
+        simp [find?] at hm
+      · cases h
+  | some o =>
+    refine ⟨o, rfl, ?_⟩
+    cases buy
+    · simp only [Bool.false_eq_true, if_false] at h
+      split at h
+      · rename_i x hx
+        obtain ⟨b, m, hb, hm, hd⟩ := (c13_record_and_purchase_pass_the_owner_gate _ _ _ _ _ 0 _ _).1 x hx
+        simp [find?] at hm
+        subst hm
+        simp only [AddrTok.canon, AddrTok.decode, Option.some.injEq] at hb
+        subst hb; exact hd
+      · cases h
+    · simp only [if_true] at h
+      split at h
+      · rename_i x hx
+        obtain ⟨b, m, hb, hm, hd⟩ := (c13_record_and_purchase_pass_the_owner_gate _ 0 0 _ 0 _ { key := 0, h0 := "", subTime := 0 } _).2 x hx
+        simp [find?] at hm
+        subst hm
+        simp only [AddrTok.canon, AddrTok.decode, Option.some.injEq] at hb
+        subst hb; exact hd
+      · cases h
+
+example : Pure.ownerMsg .bcn false (some .bad) 3 = false ∧ Pure.ownerMsg .bcn false (some (.ok 3 true)) 3 = true ∧
+    Pure.ownerMsg .wrk true (some (.ok 3 false)) 3 = true ∧ Pure.ownerMsg .wrk true (some .empty) 3 = false := by decide
+
 example : Pure.ownerGate .bcn (some .bad) 3 = false ∧ Pure.ownerGate .bcn (some (.ok 3 true)) 3 = true ∧
     Pure.ownerGate .wrk (some (.ok 2 false)) 3 = false ∧ Pure.ownerGate .wrk none 3 = false := by decide
 
